@@ -19,7 +19,7 @@ TRACE = ("Trace_C17", "Trace_C17.cfg")
 THOROUGH_EXTRA_SEEDS = 2
 # the repository\'s own tests, recorded by harness/harvest_plugin.py, judged by the same trace specification
 ALSO = {"quick": [], "thorough": ["harness.props.hv17"]}
-REQUIRED = ["Format", "SaveOpen", "scalar-time", "coarse-integer-axis", "period-seconds", "period-minutes", "period-hours", "period-days", "negative-offset",
+REQUIRED = ["Format", "SaveOpen", "scalar-time", "coarse-integer-axis", "period-milliseconds", "period-microseconds", "period-seconds", "period-minutes", "period-hours", "period-days", "negative-offset",
             "fractional-offset", "single-digit-hour-offset", "zero-offset", "utc-date-differs", "style-iso", "style-isoT",
             "style-short", "style-loose", "style-zulu", "style-naive",
             "cf1d", "cf2d", "shoc_simple", "shoc_standard", "arakawa", "ugrid"]
@@ -75,7 +75,9 @@ def cases(tier: str, seed: int) -> list[dict]:
     ev = []
     for off in offsets:
         combos = list(itertools.product(["seconds", "minutes", "hours", "days"], DATES, TIMES))
-        for period, date, tm in (rng.sample(combos, 4) if tier == "quick" else rng.sample(combos, 24)):
+        for kk, (period, date, tm) in enumerate(rng.sample(combos, 4) if tier == "quick" else rng.sample(combos, 24)):
+            if (offsets.index(off) + kk) % 3 == 0:
+                period = ["milliseconds", "microseconds"][((offsets.index(off) + kk) // 3) % 2]      # sub-second periods
             sec = rng.choice([0, 0, 30])
             for style in styles_for(sec, off):
                 ev.append({"a": "Format", "period": period, "civil": list(date) + list(tm), "sec": sec, "off": off, "style": style})
@@ -106,6 +108,18 @@ def cases(tier: str, seed: int) -> list[dict]:
                                    "style": style, "onestep": rng.randrange(2)}))
                 worlds.append((w, {"a": "SaveOpen", "period": rng.choice(["hours", "days"]), "civil": list(date) + list(tm), "sec": 0,
                                    "off": off, "style": style, "onestep": -1, "coarse": True}))
+    # a time axis counted in milliseconds
+    for conv in W.ALL_CONVS:
+        if conv == "ugrid":
+            w = GW.mesh_world(W.mesh_from_squares([["Q", "A"]]), enc={"base": 0, "fill": "intfill"})
+        elif conv == "cf1d":
+            w = GW.structured_world(conv, 2, 2, bounds=True)
+        else:
+            w = GW.structured_world(conv, 2, 2, shape="skew")
+        CD.add_data_vars(w, rng, packed=False)
+        off = rng.choice([600, -300, 330, 0])
+        worlds.append((w, {"a": "SaveOpen", "period": "milliseconds", "civil": list(rng.choice(DATES)) + list(rng.choice(TIMES)), "sec": 0,
+                           "off": off, "style": rng.choice(styles_for(0, off)), "onestep": -1}))
     vias = ["memory", "file", "dask", "memory", "emsopen"]      # how the dataset that is saved is held (viafile.hold)
     for k, (w, e) in enumerate(worlds):
         out.append({"src": "gen", "world": dict(w, via=vias[k % len(vias)]), "events": [e]})
